@@ -92,10 +92,28 @@ class Ctx:
         self.hooks = {}                 # optional callbacks: 'point'
         self.mask = set()               # rel paths never observed (cache-only directories)
         self.rets = []                  # (t, key, value) of every successful complex call
+        self.tls = threading.local()
+        self.outcomes = {}              # key -> None (ok) | exception object
+        self.fault_call = None
         self.npoints = 0
 
     def ap(self, r):
         return os.path.join(self.sb, r) if r else self.sb
+
+    def push_call(self, key):
+        st = getattr(self.tls, 'stack', None)
+        if st is None:
+            st = self.tls.stack = []
+        st.append(key)
+
+    def pop_call(self, key, exc):
+        self.tls.stack.pop()
+        with self.lock:
+            self.outcomes.setdefault(key, []).append(exc)
+
+    def current_call(self):
+        st = getattr(self.tls, 'stack', None)
+        return st[-1] if st else None
 
     def rel(self, p):
         return env.rel(self.sb, p)
@@ -406,6 +424,8 @@ def call_bf(ctx, fr, s):
         return final_ret(fr2, acc, [acc])
 
     pth = spell(ctx, r, o.get('sp'))
+    ckey = ('bf', os.path.abspath(target_abs))
+    ctx.push_call(ckey)
     try:
         if o.get('cmp'):
             fc = FileComparison.HASH if o['cmp'] == 'H' else FileComparison.METADATA
@@ -413,12 +433,14 @@ def call_bf(ctx, fr, s):
         else:
             ret = fr.b.build_file(pth, fname, fn, *sent_args, **sent_kwargs)
     except Exception as e:
+        ctx.pop_call(ckey, e)
         note_exception(ctx, e)
         if ctx.real:
             peek_after_bf(ctx, target_abs, False, e)
         if not o.get('catch') or isinstance(e, Crash):
             raise
         return ['exc', errname(e)]
+    ctx.pop_call(ckey, None)
     if ctx.real:
         peek_after_bf(ctx, target_abs, True, None)
     with ctx.lock:
@@ -481,12 +503,19 @@ def call_sb(ctx, fr, s):
         return final_ret(fr2, acc, {'v': acc})
 
     try:
+        ckey = ('sb', canon([fname, roundtrip(list(sent_args)), roundtrip(sent_kwargs)]))
+    except TypeError:
+        ckey = ('sb', fname)
+    ctx.push_call(ckey)
+    try:
         ret = fr.b.subbuild(fname, fn, *sent_args, **sent_kwargs)
     except Exception as e:
+        ctx.pop_call(ckey, e)
         note_exception(ctx, e)
         if not o.get('catch') or isinstance(e, Crash):
             raise
         return ['exc', errname(e)]
+    ctx.pop_call(ckey, None)
     with ctx.lock:
         try:
             ctx.rets.append(('sb', canon([fname, roundtrip(list(sent_args)), roundtrip(sent_kwargs)]),
